@@ -376,6 +376,10 @@ def desugar(text, rules, counts):
             text, c = _r_take(text)
         elif r == "R-ASSERTEQ":
             text, c = _r_asserteq(text)
+        elif r == "R-WHILELET":
+            text, c = _r_whilelet(text)
+        elif r == "R-SELF":
+            c = text.count("vx_self")  # done by r_self() before the other rules
         elif r == "R-CLOSPEC":
             c = text.count("vx_r:")  # done by closure_specs() with the declared types
         else:
@@ -674,12 +678,14 @@ def hoist_spawn(text, cfgs):
         po = m.index("(", mt.start())
         sites.append((po, e, bo, bc))
     # second form: the async block is bound to a variable first (`let f = async move { BODY };`), then spawned or awaited
-    for mt in re.finditer(r"=\s*(async\s+move\s*\{)", m):
+    for mt in re.finditer(r"=\s*(?:\{\s*)?(async\s+move\s*\{)", m):
         if any(po < mt.start() < e for (po, e, _, _) in sites):
             continue
         bo = mt.end() - 1
         bc = match_close(m, bo)
         e = skip_ws(m, bc + 1)
+        if m[e] == "}" and "{" in m[mt.start():mt.start(1)]:
+            e = skip_ws(m, e + 1)   # the block that only wraps the async block
         if m[e] != ";":
             raise SpliceError("R-SPAWN: bound async block is not a whole let initialiser")
         # replace from just after `=` (keeping one space) up to the `;`
@@ -697,10 +703,10 @@ def hoist_spawn(text, cfgs):
         body = text[bo:bc + 1]
         names = [p.split(":")[0].strip() for p in _split_commas(cfg["params"])]
         targs = cfg.get("turbofish", "")
-        call = "Self::%s%s(%s)" % (cfg["name"], targs, ", ".join(names))
+        call = "%s%s%s(%s)" % ("" if cfg.get("free") else "Self::", cfg["name"], targs, ", ".join(names))
         nl = text.count("\n", po + 1, e)
         line_off = text.count("\n", 0, bo)
-        fn_text = "    async fn %s%s(%s) -> %s %s" % (cfg["name"], gen_text, cfg["params"], cfg["returns"], body)
+        fn_text = "    async fn %s%s(%s) -> %s %s" % (cfg["name"], cfg.get("generics", gen_text), cfg["params"], cfg["returns"], body)
         hoisted.append((cfg, fn_text, line_off))
         text = text[:po + 1] + (" " if text[po] == "=" else "") + call + "\n" * nl + text[e:]
     hoisted.reverse()
@@ -843,5 +849,59 @@ def _r_asserteq(text):
         e = skip_ws(m, b)
         semi = 1 if e < len(m) and m[e] == ";" else 0
         text = text[:a] + "if !(%s == %s) { vx_unreachable(); }" % (parts[0].strip(), parts[1].strip()) + text[e + semi:]
+        n += 1
+    return text, n
+
+
+def _r_whilelet(text):
+    """R-WHILELET: `while let Some(X) = E {` becomes `loop { let vx_o = E; if vx_o.is_none() { break; } let X = vx_o.unwrap();`
+    (Verus has no `while let`; same evaluation order, same bindings, the loop ends exactly when E yields None)."""
+    m = mask(text)
+    sites = []
+    for mt in re.finditer(r"\bwhile\s+let\s+Some\s*\(\s*(\w+)\s*\)\s*=", m):
+        o = find_top_level(m, mt.end(), len(m), "{")
+        if o < 0:
+            raise SpliceError("R-WHILELET: no loop body")
+        sites.append((mt.start(), o, mt.group(1), text[mt.end():o].strip()))
+    for (a, o, var, expr) in reversed(sites):
+        text = text[:a] + "loop {" + " let vx_o = %s; if vx_o.is_none() { break; } let %s = vx_o.unwrap();" % (expr, var) + text[o + 1:]
+    return text, len(sites)
+
+
+def r_self(text, bound, signature=True):
+    """R-SELF: a default method of a trait is verified as a free function over an arbitrary implementor V: `&self` becomes
+    `vx_self: &V` (with `V: <the trait>` added to the generics), `self.m(..)` becomes `vx_self_m::<V>(vx_self, ..)` and
+    `Self::m::<G>(..)` becomes `vx_self_m::<G, V>(..)` - the trait's other methods are stubs of those names. (Verus does not accept
+    `async fn` in a trait declaration.)"""
+    n = 0
+    m = mask(text)
+    sh = FnShape(text)
+    body_from = sh.body_open if sh.has_body else len(text)
+    edits = []
+    for mt in re.finditer(r"\bSelf\s*::\s*(\w+)\s*(?:::\s*<([^<>]*)>)?\s*\(", m):
+        if mt.start() < body_from:
+            continue
+        g = (mt.group(2).strip() + ", V") if mt.group(2) else "V"
+        edits.append((mt.start(), mt.end(), "vx_self_%s::<%s>(" % (mt.group(1), g)))
+    for mt in re.finditer(r"\bself\s*\.\s*(\w+)\s*(?:::\s*<([^<>]*)>)?\s*\(", m):
+        if mt.start() < body_from:
+            continue
+        g = (mt.group(2).strip() + ", V") if mt.group(2) else "V"
+        edits.append((mt.start(), mt.end(), "vx_self_%s::<%s>(vx_self, " % (mt.group(1), g)))
+    for (a, b, rep) in sorted(edits, reverse=True):
+        text = text[:a] + rep + text[b:]
+        n += 1
+    if signature:
+        m = mask(text)
+        sh = FnShape(text)
+        ps = m.find("&self", sh.params_open, sh.params_close)
+        if ps < 0:
+            raise SpliceError("R-SELF: no &self receiver")
+        text = text[:ps] + "vx_self: &V" + text[ps + 5:]
+        mt = re.search(r"\bfn\s+\w+\s*(<)?", mask(text))
+        if mt.group(1):
+            text = text[:mt.end()] + "V: %s, " % bound + text[mt.end():]
+        else:
+            text = text[:mt.end()] + "<V: %s>" % bound + text[mt.end():]
         n += 1
     return text, n
